@@ -3,11 +3,13 @@
    reference sequence of the bounded space, and export of that space as cases.ndjson.
    The space: both ways of supplying (value, pointer) x both file shapes (plain, extends) x
      - every sequence of <= MaxLen references to ONE global (X), plus the silent pkgvar reference
+     - every sequence of <= MaxLenLite references to ONE global over the "lite" alphabet (no pkgvar,
+       no hoisted closure: the hoisted macro already is "a function literal met first")
      - every sequence of <= MaxLen2 references to TWO globals (X and Y), up to renaming
        (the first global referenced is X)
    over the scopes of the shape x {read, write} x {declaration hoisted or not} (macro, closure). *)
 EXTENDS Globals, TLC, Json, SequencesExt
-CONSTANTS MaxLen, MaxLen2, Mode
+CONSTANTS MaxLen, MaxLenLite, MaxLen2, Mode
 
 Scopes(ext) == IF ext THEN {"layout", "extending", "macro", "closure", "imported", "rendered"}
                ELSE {"top", "macro", "closure", "imported", "rendered"}
@@ -22,8 +24,10 @@ UsesY(refs) == \E i \in 1..Len(refs) : IsGlobalRef(refs[i]) /\ refs[i].var = "Y"
 \* up to renaming: Y only after X has been referenced
 Canon(refs) == \A i \in 1..Len(refs) : (IsGlobalRef(refs[i]) /\ refs[i].var = "Y")
                    => \E j \in 1..(i - 1) : IsGlobalRef(refs[j]) /\ refs[j].var = "X"
-Allowed(refs) == /\ Len(refs) <= MaxLen
-                 /\ UsesY(refs) => (Len(refs) <= MaxLen2 /\ Canon(refs))
+IsLiteRef(r) == r.sc # "pkgvar" /\ ~(r.sc = "closure" /\ r.hoist = 1)
+IsLite(refs) == \A i \in 1..Len(refs) : IsLiteRef(refs[i])
+Allowed(refs) == /\ IF Len(refs) <= MaxLen THEN TRUE ELSE (Len(refs) <= MaxLenLite /\ IsLite(refs))
+                 /\ IF UsesY(refs) THEN (Len(refs) <= MaxLen2 /\ Canon(refs)) ELSE TRUE
 
 VARIABLE c
 Init == c \in {[sup |-> s, ext |-> e, init |-> <<5, 6>>, refs |-> <<>>] : s \in {"value", "pointer"}, e \in BOOLEAN}
@@ -34,29 +38,56 @@ Next == \E r \in RefSet(c.ext, {"X", "Y"}) :
 
 (* ---- design-level results (Mode = "theorems": all must hold) ---- *)
 \* with both proposed fixes the mechanism IS a register for every case of the space
-FixedMeetsRef == Agree(ImplRun(c, Fixed), RefRun(c))
+ThFixedMeetsRef(f, ref) == Agree(f, ref)
 \* the mechanism as written leaves the register semantics only in the two situations named in Globals.tla
-AsWrittenDeviatesOnlyIf == ~Agree(ImplRun(c, AsWritten), RefRun(c)) => (LitFirst(c.refs) \/ (c.sup = "value" /\ CrossWrite(c.refs)))
+ThAsWrittenDeviatesOnlyIf(w, ref) == ~Agree(w, ref) => (LitFirst(c.refs) \/ (c.sup = "value" /\ CrossWrite(c.refs)))
 \* each fix removes its own cause
-PkgFixLeavesOnlyCross == ~Agree(ImplRun(c, OnlyPkgFixed), RefRun(c)) => (c.sup = "value" /\ CrossWrite(c.refs))
-DedupFixLeavesOnlyLitFirst == ~Agree(ImplRun(c, OnlyDedupFixed), RefRun(c)) => LitFirst(c.refs)
+ThPkgFixLeavesOnlyCross(pk, ref) == ~Agree(pk, ref) => (c.sup = "value" /\ CrossWrite(c.refs))
+ThDedupFixLeavesOnlyLitFirst(dd, ref) == ~Agree(dd, ref) => LitFirst(c.refs)
 \* the order in which the functions are emitted changes indexes but not what is observed
-UnitOrderIrrelevant == \A V \in {AsWritten, Fixed} :
-     LET a == ImplRunO(c, V, FALSE) b == ImplRunO(c, V, TRUE) IN
-     /\ a.reads1 = b.reads1 /\ a.caller1 = b.caller1 /\ a.reads2 = b.reads2 /\ a.caller2 = b.caller2 /\ a.used = b.used
+SameObs(a, b) == /\ a.reads1 = b.reads1 /\ a.caller1 = b.caller1 /\ a.reads2 = b.reads2 /\ a.caller2 = b.caller2 /\ a.used = b.used
 \* UsedVars of the model always reports every referenced global (also in the as-written variant)
-UsedVarsReported == RefRun(c).used \subseteq ImplRun(c, AsWritten).used
+ThUsedVarsReported(w, ref) == ref.used \subseteq w.used
 
-(* ---- diagnostic (Mode = "aswritten"): expected to be VIOLATED; TLC's counterexample is the minimal witness ---- *)
+FixedMeetsRef == ThFixedMeetsRef(ImplRun(c, Fixed), RefRun(c))
+AsWrittenDeviatesOnlyIf == ThAsWrittenDeviatesOnlyIf(ImplRun(c, AsWritten), RefRun(c))
+PkgFixLeavesOnlyCross == ThPkgFixLeavesOnlyCross(ImplRun(c, OnlyPkgFixed), RefRun(c))
+DedupFixLeavesOnlyLitFirst == ThDedupFixLeavesOnlyLitFirst(ImplRun(c, OnlyDedupFixed), RefRun(c))
+UnitOrderIrrelevant == \A V \in {AsWritten, Fixed} : SameObs(ImplRunO(c, V, FALSE), ImplRunO(c, V, TRUE))
+UsedVarsReported == ThUsedVarsReported(ImplRun(c, AsWritten), RefRun(c))
+\* The main run (whole space) checks CoreTheorems; a second run on a smaller space checks AllTheorems; each
+\* model is evaluated once per state.  On a violation the check re-runs the six separately to name the one that fails.
+CoreTheorems ==
+  LET ref == RefRun(c) w == ImplRun(c, AsWritten) f == ImplRun(c, Fixed) IN
+  ThFixedMeetsRef(f, ref) /\ ThAsWrittenDeviatesOnlyIf(w, ref) /\ ThUsedVarsReported(w, ref)
+AllTheorems ==
+  LET ref == RefRun(c) w == ImplRun(c, AsWritten) f == ImplRun(c, Fixed) IN
+  /\ ThFixedMeetsRef(f, ref) /\ ThAsWrittenDeviatesOnlyIf(w, ref)
+  /\ ThPkgFixLeavesOnlyCross(ImplRun(c, OnlyPkgFixed), ref) /\ ThDedupFixLeavesOnlyLitFirst(ImplRun(c, OnlyDedupFixed), ref)
+  /\ SameObs(w, ImplRunO(c, AsWritten, TRUE)) /\ SameObs(f, ImplRunO(c, Fixed, TRUE))
+  /\ ThUsedVarsReported(w, ref)
+
+(* ---- diagnostic (Mode = "aswritten"): expected to be VIOLATED while the defects are in the tree;
+        TLC's counterexample is the minimal witness ---- *)
 AsWrittenMeetsRef == Agree(ImplRun(c, AsWritten), RefRun(c))
 OnlyPkgFixedMeetsRef == Agree(ImplRun(c, OnlyPkgFixed), RefRun(c))
 
-(* ---- case export (constant level; the same set the state space enumerates) ---- *)
-SeqsOf(S, n) == UNION {[1..k -> S] : k \in 0..n}
-RefSeqs(ext) == {s \in SeqsOf(RefSet(ext, {"X"}), MaxLen) \cup SeqsOf(RefSet(ext, {"X", "Y"}), MaxLen2) : Allowed(s)}
-CaseSet == UNION {{[sup |-> sp, ext |-> e, refs |-> [i \in 1..Len(s) |-> WithVal(s[i], i)]] : s \in RefSeqs(e)} :
-                    sp \in {"value", "pointer"}, e \in BOOLEAN}
-Cases == LET S == SetToSeq(CaseSet) IN
-         [i \in 1..Len(S) |-> [id |-> i, sup |-> S[i].sup, ext |-> S[i].ext, init |-> <<5, 6>>, refs |-> S[i].refs]]
-ASSUME Mode = "theorems" => ndJsonSerialize("cases.ndjson", Cases)
+(* ---- case export: the same set the state space enumerates, built as a sequence by index decoding
+        (no large sets: 10^5 cases in seconds) ---- *)
+RECURSIVE Pow(_, _)
+Pow(n, k) == IF k = 0 THEN 1 ELSE n * Pow(n, k - 1)
+\* the j-th (0-based) sequence of length k over the alphabet A (a sequence of references)
+DecodeSeq(A, k, j) == [i \in 1..k |-> WithVal(A[((j \div Pow(Len(A), i - 1)) % Len(A)) + 1], i)]
+AllSeqs(A, k) == [j \in 1..Pow(Len(A), k) |-> DecodeSeq(A, k, j - 1)]
+RECURSIVE SeqsBetween(_, _, _)
+SeqsBetween(A, lo, hi) == IF lo > hi THEN <<>> ELSE AllSeqs(A, lo) \o SeqsBetween(A, lo + 1, hi)   \* lengths lo..hi
+\* (operators with a dummy parameter: TLC evaluates zero-argument constant definitions at start-up, in every Mode)
+RefSeqs(ext) == SeqsBetween(SetToSeq(RefSet(ext, {"X"})), 0, MaxLen)
+                \o SeqsBetween(SetToSeq({r \in RefSet(ext, {"X"}) : IsLiteRef(r)}), MaxLen + 1, MaxLenLite)
+                \o SelectSeq(SeqsBetween(SetToSeq(RefSet(ext, {"X", "Y"})), 0, MaxLen2), LAMBDA s : UsesY(s) /\ Allowed(s))
+CasesOf(sp, e) == LET R == RefSeqs(e) IN [i \in 1..Len(R) |-> [sup |-> sp, ext |-> e, refs |-> R[i]]]
+Flat(dummy) == CasesOf("value", FALSE) \o CasesOf("pointer", FALSE) \o CasesOf("value", TRUE) \o CasesOf("pointer", TRUE)
+Cases(dummy) == LET F == Flat(dummy) IN
+                [i \in 1..Len(F) |-> [id |-> i, sup |-> F[i].sup, ext |-> F[i].ext, init |-> <<5, 6>>, refs |-> F[i].refs]]
+ASSUME Mode = "theorems" => ndJsonSerialize("cases.ndjson", Cases(0))
 =============================================================================
